@@ -4,7 +4,7 @@ language of coq/Closure/ListCheck.v. Fail-closed: any statement outside the reco
 import ast, os, sys
 HERE = os.path.dirname(os.path.abspath(__file__))
 sys.path.insert(0, HERE)
-from py2mini import Untranslatable
+from py2mini import Untranslatable, no_decorators
 
 REPO = os.environ.get("VERIF_REPO", "/repo")
 FILE = "pyshacl/shapes_graph.py"
@@ -46,6 +46,8 @@ def main():
     # a direct child of __init__'s statement list (so not under any condition), no return before it
     called_first = len(calls) == 1 and (not system or calls[0] < system[0]) and not any(isinstance(n, ast.Return) for s in init[:calls[0]] for n in ast.walk(s))
     fn = methods["_check_rdf_lists"]
+    no_decorators(fn, FILE + ": ShapesGraph._check_rdf_lists")
+    no_decorators(methods["__init__"], FILE + ": ShapesGraph.__init__")
     body = strip_doc(fn.body)
     i = 0
     if not (isinstance(body[i], ast.Assign) and ast.unparse(body[i]) == "rest_of = {}"):
